@@ -231,6 +231,106 @@ func (a *Adv) parentOfV1(blk types.Block, id types.SiacoinOutputID) (types.Siaco
 	return types.SiacoinElement{}, false
 }
 
+// dupV1Fresh appends, for one stored output of every kind of v1 unlock conditions, a fresh v1 transaction that names it
+// twice and pays out the doubled value (expectation want), optionally with the single spend as a control.
+func (a *Adv) dupV1Fresh(want string, controls bool) int {
+	n := 0
+	world := a.G.W
+	// The same with fresh v1 transactions over stored outputs of every kind of unlock conditions, in particular those that
+	// take no part in the signature bookkeeping (no signature required) or whose signatures are not checked (unknown
+	// algorithm): one parent named twice, the doubled value paid out. Control: the single spend.
+	if a.v1Allowed() {
+		usedSC, usedSF := map[types.SiacoinOutputID]bool{}, map[types.SiafundOutputID]bool{}
+		for _, t := range a.Honest.Transactions {
+			for _, in := range t.SiacoinInputs {
+				usedSC[in.ParentID] = true
+			}
+			for _, in := range t.SiafundInputs {
+				usedSF[in.ParentID] = true
+			}
+		}
+		for _, t := range a.Honest.V2Transactions() {
+			for _, in := range t.SiacoinInputs {
+				usedSC[in.Parent.ID] = true
+			}
+			for _, in := range t.SiafundInputs {
+				usedSF[in.Parent.ID] = true
+			}
+		}
+		median := MedianTimestamp(a.CS)
+		seenKind := map[string]bool{}
+		for _, e := range a.G.C.Store.SortedSC() {
+			lock, known := world.Locks[e.SiacoinOutput.Address]
+			if !known || lock.UC == nil || usedSC[e.ID] || seenKind[lock.Kind] || e.MaturityHeight > a.Child || e.SiacoinOutput.Value.IsZero() || e.SiacoinOutput.Value.Hi>>62 != 0 || !lock.Spendable(false, a.Child, median) {
+				continue
+			}
+			seenKind[lock.Kind] = true
+			mk := func(times int) types.Block {
+				txn := types.Transaction{SiacoinOutputs: []types.SiacoinOutput{{Value: e.SiacoinOutput.Value.Mul64(uint64(times)), Address: types.Address{9}}}}
+				for k := 0; k < times; k++ {
+					txn.SiacoinInputs = append(txn.SiacoinInputs, types.SiacoinInput{ParentID: e.ID, UnlockConditions: *lock.UC})
+				}
+				SignV1(a.CS, &txn, false)
+				blk := CloneBlock(a.Honest)
+				blk.Transactions = append(blk.Transactions, txn)
+				return blk
+			}
+			if a.emit(mk(2), "dup-siacoin-input-same-txn/v1-fresh/"+lock.Kind, want, nil, nil) {
+				n++
+			}
+			// and spent by two different fresh transactions of the block
+			{
+				blk := mk(1)
+				second := CloneV1(blk.Transactions[len(blk.Transactions)-1])
+				second.SiacoinOutputs[0].Address = types.Address{7}
+				SignV1(a.CS, &second, false)
+				blk.Transactions = append(blk.Transactions, second)
+				if a.emit(blk, "fresh-double-spend/v1+v1/"+lock.Kind, want, nil, nil) {
+					n++
+				}
+			}
+			if controls {
+				a.emit(mk(1), "fresh-single-spend/v1/"+lock.Kind, "accept", nil, nil)
+			}
+		}
+		seenKind = map[string]bool{}
+		for _, e := range a.G.C.Store.SortedSF() {
+			lock, known := world.Locks[e.SiafundOutput.Address]
+			if !known || lock.UC == nil || usedSF[e.ID] || seenKind[lock.Kind] || e.SiafundOutput.Value == 0 || !lock.Spendable(false, a.Child, median) || e.SiafundOutput.Address == a.G.C.Net.HardforkDevAddr.OldAddress {
+				continue
+			}
+			seenKind[lock.Kind] = true
+			mk := func(times int) types.Block {
+				txn := types.Transaction{SiafundOutputs: []types.SiafundOutput{{Value: e.SiafundOutput.Value * uint64(times), Address: types.Address{9}}}}
+				for k := 0; k < times; k++ {
+					txn.SiafundInputs = append(txn.SiafundInputs, types.SiafundInput{ParentID: e.ID, UnlockConditions: *lock.UC, ClaimAddress: types.Address{8}})
+				}
+				SignV1(a.CS, &txn, false)
+				blk := CloneBlock(a.Honest)
+				blk.Transactions = append(blk.Transactions, txn)
+				return blk
+			}
+			if a.emit(mk(2), "dup-siafund-input-same-txn/v1-fresh/"+lock.Kind, want, nil, nil) {
+				n++
+			}
+			{
+				blk := mk(1)
+				second := CloneV1(blk.Transactions[len(blk.Transactions)-1])
+				second.SiafundOutputs[0].Address = types.Address{7}
+				SignV1(a.CS, &second, false)
+				blk.Transactions = append(blk.Transactions, second)
+				if a.emit(blk, "fresh-double-spend/v1+v1-siafund/"+lock.Kind, want, nil, nil) {
+					n++
+				}
+			}
+			if controls {
+				a.emit(mk(1), "fresh-single-spend/v1-siafund/"+lock.Kind, "accept", nil, nil)
+			}
+		}
+	}
+	return n
+}
+
 // DoubleSpendProbes records every applicable C02 operator for the honest block.
 func (a *Adv) DoubleSpendProbes() int {
 	t := a.G.T
@@ -277,6 +377,7 @@ func (a *Adv) DoubleSpendProbes() int {
 			break
 		}
 	}
+	n += a.dupV1Fresh("reject", true)
 	// one parent listed twice by one v2 transaction; once for a parent held by the accumulator and once for a parent
 	// created earlier in the block (an ephemeral parent is known to the block only through its MidState, so its
 	// in-transaction bookkeeping is a separate code path)
@@ -1009,7 +1110,7 @@ func (a *Adv) InflationProbes() int { return a.inflationProbes("sound") }
 func (a *Adv) WrapProbes(want string) int { return a.inflationProbes(want) }
 
 func (a *Adv) inflationProbes(want string) int {
-	n := 0
+	n := a.dupV1Fresh(want, false)
 	half128 := types.Currency{Hi: 1 << 63}
 	emit := func(blk types.Block, label string) {
 		if a.emit(blk, label, want, nil, nil) {
